@@ -176,6 +176,18 @@ def run(ctx, res):
             break
     r4b_result(F, res, rid4)
     r6_stop_recognizer(ctx, res)
+    # "a successful parse": the LR loop may answer Ok only through Accept (decided by C12-R5 on the same paths, shared)
+    from . import c12, c07, report
+    rid7 = res.rule("C02-R7", "the LR loop leaves with Ok only through Action::Accept; every other exit is an Err (shared with C12-R5)", floor=1)
+    sub = report.Result("C02", ctx.tier)
+    try:
+        c12.run(ctx, sub)
+        c07.adopt(res, rid7, sub, only=["C12-R5"])
+        for u in sub.undecided_list:
+            if u["rule"].startswith("C12-R5"):
+                res.undecided(rid7, u["what"], u.get("where"))
+    except mir.AnchorLost as e:
+        res.undecided(rid7, str(e))
     res.explanation = (
         "Decides structural clauses that are necessary for a tree to be a derivation: (R1) every Reduce cell is "
         "(item.prod, item.position) of a reducing item and is_reducing has the documented table; (R2) action cells are "
